@@ -91,3 +91,100 @@ fn c19_utf8_model_vs_std() {
         }
     }
 }
+
+// ---- the 4-byte ids of a message obey the same rule ---------------------------
+use dlt_core::parse::verif_hooks as ph;
+
+/// expected clean prefix length of a 4-byte id field
+fn ref_id_len(f: &[u8]) -> usize {
+    let mut cut = 4;
+    let mut i = 0;
+    while i < 4 {
+        if f[i] == 0 {
+            cut = i;
+            break;
+        }
+        i += 1;
+    }
+    utf8_valid_up_to(&f[..cut]).0
+}
+
+fn id_matches(s: &str, f: &[u8]) -> bool {
+    let n = ref_id_len(f);
+    let sb = s.as_bytes();
+    if sb.len() != n {
+        return false;
+    }
+    let mut i = 0;
+    while i < n {
+        if sb[i] != f[i] {
+            return false;
+        }
+        i += 1;
+    }
+    true
+}
+
+/// Application and context id: all 2^64 contents of the two fields (MSIN and
+/// NOAR literal), followed by one more symbolic byte.
+#[kani::proof]
+#[kani::unwind(12)]
+#[kani::stub(std::fmt::format, crate::models::fmt_format_stub)]
+#[kani::stub(core::str::from_utf8, crate::models::from_utf8_stub)]
+fn c19_ids_extended_header() {
+    let d: [u8; 9] = kani::any();
+    let buf = [0x41u8, 1, d[0], d[1], d[2], d[3], d[4], d[5], d[6], d[7], d[8]];
+    match ph::extended_header(&buf) {
+        Ok((rest, eh)) => {
+            assert!(rest.len() == 1, "id fields do not consume exactly 4 bytes each");
+            assert!(id_matches(&eh.application_id, &buf[2..6]), "application id is not the clean prefix before the first NUL");
+            assert!(id_matches(&eh.context_id, &buf[6..10]), "context id is not the clean prefix before the first NUL");
+            kani::cover!(ref_id_len(&buf[2..6]) == 1 && buf[4] != 0, "bytes after an embedded NUL ignored");
+            kani::cover!(ref_id_len(&buf[6..10]) == 4, "full 4-byte context id");
+            std::mem::forget(eh);
+        }
+        Err(_) => assert!(false, "extended header rejected"),
+    }
+}
+
+/// ECU id of the standard header (HTYP literal: WEID only), followed by payload bytes.
+#[kani::proof]
+#[kani::unwind(10)]
+#[kani::stub(std::fmt::format, crate::models::fmt_format_stub)]
+#[kani::stub(core::str::from_utf8, crate::models::from_utf8_stub)]
+fn c19_ids_standard_header_ecu() {
+    let d: [u8; 6] = kani::any();
+    let buf = [0x24u8, 7, 0, 10, d[0], d[1], d[2], d[3], d[4], d[5]];
+    match ph::standard_header(&buf) {
+        Ok((rest, h)) => {
+            assert!(rest.len() == 2);
+            match &h.ecu_id {
+                Some(e) => assert!(id_matches(e, &buf[4..8]), "ECU id is not the clean prefix before the first NUL"),
+                None => assert!(false),
+            }
+            kani::cover!(ref_id_len(&buf[4..8]) == 2 && buf[6] >= 0x80, "ECU id cut at invalid UTF-8");
+            std::mem::forget(h);
+        }
+        Err(_) => assert!(false, "standard header rejected"),
+    }
+}
+
+/// ECU id of the storage header.
+#[kani::proof]
+#[kani::unwind(22)]
+#[kani::stub(std::fmt::format, crate::models::fmt_format_stub)]
+#[kani::stub(core::str::from_utf8, crate::models::from_utf8_stub)]
+#[kani::stub(dlt_core::parse::forward_to_next_storage_header, crate::models::forward_stub)]
+fn c19_ids_storage_header_ecu() {
+    let d: [u8; 5] = kani::any();
+    let buf = [0x44u8, 0x4C, 0x54, 0x01, 1, 2, 3, 4, 5, 6, 7, 8, d[0], d[1], d[2], d[3], d[4]];
+    match ph::storage_header(&buf) {
+        Ok((rest, Some((sh, skipped)))) => {
+            assert!(skipped == 0 && rest.len() == 1);
+            assert!(id_matches(&sh.ecu_id, &buf[12..16]), "storage ECU id is not the clean prefix before the first NUL");
+            kani::cover!(ref_id_len(&buf[12..16]) == 0, "empty ECU id");
+            std::mem::forget(sh);
+        }
+        _ => assert!(false, "storage header rejected"),
+    }
+}
